@@ -53,14 +53,22 @@ MANIFEST_ENTRY = {
 _DIRS = {}
 
 
-def _data_dir(n_inputs):
-    key = (os.getpid(), n_inputs)
+# input file stems as users and `generate-input` produce them (one file per
+# bias ratio: <label>_bias_0.5.json, <label>_bias_inf.json, ...)
+NAME_POOL = ['exp_bias_0.5', 'exp_bias_0.25', 'exp_bias_10', 'exp_bias_inf', 'exp_bias_0.502',
+             'exp', 'toric.v2', 'run 1', 'input_00', 'a.b.c', 'exp_bias_100.0', 'Z_bias-3']
+
+
+def _data_dir(n_inputs, names=None):
+    key = (os.getpid(), n_inputs, tuple(names or ()))
     if key not in _DIRS:
-        d = os.path.join(runner.scratch_dir('c14'), f'p{os.getpid()}_i{n_inputs}')
+        d = os.path.join(runner.scratch_dir('c14'), f'p{os.getpid()}_i{n_inputs}_{len(_DIRS)}')
         shutil.rmtree(d, ignore_errors=True)
         os.makedirs(os.path.join(d, 'inputs'))
-        for i in range(n_inputs):
-            with open(os.path.join(d, 'inputs', f'input_{i:02d}.json'), 'w') as f:
+        stems = list(names) if names else [f'input_{i:02d}' for i in range(n_inputs)]
+        assert len(stems) == n_inputs and len(set(stems)) == n_inputs
+        for stem in stems:
+            with open(os.path.join(d, 'inputs', stem + '.json'), 'w') as f:
                 f.write('{}')
         _DIRS[key] = d
     return _DIRS[key]
@@ -81,7 +89,7 @@ def eval_case(case):
     n_inputs, N, C, trials = (case['n_inputs'], case['n_nodes'],
                               case['n_cores'], case['trials'])
     assert in_domain(n_inputs, N, C, trials), 'case outside domain'
-    d = _data_dir(n_inputs)
+    d = _data_dir(n_inputs, case.get('names'))
     tasks = []
 
     # 'files' cases: the stand-in for the child process really writes its
@@ -200,6 +208,9 @@ def eval_case(case):
                   else 'even_trials')
     if trials % last >= max(1, trials // last):
         labels.append('remainder>=quotient')
+    if case.get('names'):
+        labels.append('dotted-input-names' if any('.' in x for x in case['names'])
+                      else 'plain-input-names')
     if files:
         labels.append('files:delete-existing' if case.get('delete_existing') else 'files:keep')
         labels.append('files:ascending-jobs' if order == sorted(order) else 'files:other-job-order')
@@ -232,8 +243,12 @@ def large_cases(draw):
         st.sampled_from([100, 1000, 5000, 10000, 10**5, 10**6]).map(
             lambda t: max(t, lo)),
     ))
-    return {'n_inputs': n_inputs, 'n_nodes': N, 'n_cores': C, 'trials': trials,
+    case = {'n_inputs': n_inputs, 'n_nodes': N, 'n_cores': C, 'trials': trials,
             'omit_cores': draw(st.booleans())}
+    if draw(st.booleans()):
+        case['names'] = draw(st.lists(st.sampled_from(NAME_POOL), min_size=n_inputs,
+                                      max_size=n_inputs, unique=True))
+    return case
 
 
 @st.composite
@@ -249,10 +264,14 @@ def file_cases(draw):
     leftovers = draw(st.lists(st.sampled_from(
         [f'results_{str(i).zfill(dg)}.json{ext}' for i in range(1, N * C + 3)
          for dg in (digits, digits + 1) for ext in ('', '.gz')]), max_size=4, unique=True))
-    return {'n_inputs': n_inputs, 'n_nodes': N, 'n_cores': C, 'trials': trials,
+    case = {'n_inputs': n_inputs, 'n_nodes': N, 'n_cores': C, 'trials': trials,
             'files': True, 'order': list(order),
             'delete_existing': draw(st.booleans()), 'leftovers': leftovers,
             'omit_cores': draw(st.booleans())}
+    if draw(st.booleans()):
+        case['names'] = draw(st.lists(st.sampled_from(NAME_POOL), min_size=n_inputs,
+                                      max_size=n_inputs, unique=True))
+    return case
 
 
 def run(ctx):
